@@ -599,6 +599,59 @@ def p_C07(ctx):
     return ctx.finish("ALL subsets of the universe of candidate factor lines x user RED1/RED2 given or not (plus a duplicated-key variant and the four locations) are prepared by the real library; TLC evaluates respect of user values, provenance of the export defaults, RED1/RED2 precedence, idempotence and rejection of unusable sets on (file, prepared list), and every building shape over the carriers of a prepared set must evaluate without missing factor; the look-ups recorded by the Find hook are compared with Balance!NeededKeys (DRIFT)")
 
 
+def order_stats(ctx):
+    seen = {}
+    for n in ctx.notes:
+        if "order" in n:
+            seen.setdefault(n["case"], set()).add(json.dumps(n["order"]))
+    return {"groups_with_repeats": len(seen), "distinct_orders_seen": sum(len(v) for v in seen.values()),
+            "groups_with_several_orders": sum(1 for v in seen.values() if len(v) > 1)}
+
+
+def p_C10(ctx):
+    st = ctx.mc("MC_C10", "MC_C10_quick.cfg" if ctx.quick else "MC_C10_thorough.cfg", timeout=3000)
+    by = {}
+    for c in vlib.mc_cases(st):
+        by.setdefault(c["base"], []).append(c)
+    groups = []
+    nrew = 0
+    for b, cs in sorted(by.items()):
+        cs.sort(key=lambda c: c["depth"])
+        base, rest = cs[0], cs[1:]
+        nrew += len(rest)
+        for i in range(0, len(rest), 40):
+            for loc, lm in (("PENINSULA", False), ("CANARIAS", True)):
+                groups.append({"srcs": [base["src"]] + [c["src"] for c in rest[i:i + 40]],
+                               "fac": {"mode": "loc", "loc": loc}, "kexp": [1, 2], "area": [5, 2], "lm": lm})
+    ctx.replay(groups, "rewritings", "Trace_C10", keep=lambda c: {"base": c["srcs"][0], "n": len(c["srcs"])})
+    ctx.extra["rewritten_files"] = nrew
+    # repeated evaluations: parse + evaluate again and again (fresh hash orders), lattice buildings, shipped files, random buildings
+    reps = 12 if ctx.quick else 48
+    def repeat(cs):
+        for c in cs:
+            src = dict(c["src"])
+            yield {"name": c.get("name"), "srcs": [dict(src, tag="rep%d" % i) for i in range(reps)],
+                   "fac": c["fac"], "kexp": c["kexp"], "area": c["area"], "lm": c["lm"]}
+    lat = lattice(ctx)
+    ctx.replay(repeat(stride(vlib.mc_cases(lat), 60 if ctx.quick else 6, ctx.seed % 60 if ctx.quick else 0)), "repeat-lattice", "Trace_C10",
+               keep=lambda c: {"src": c["srcs"][0]})
+    ctx.replay(repeat(file_cases(None)), "repeat-files", "Trace_C10", keep=lambda c: {"src": c["srcs"][0]})
+    ctx.replay(repeat(rnd(ctx, 60, 2000, None, aux=True)), "repeat-random", "Trace_C10", keep=lambda c: {"src": c["srcs"][0]})
+    c06 = ctx.mc("MC_Comp", "MC_Comp_C06_thorough.cfg")      # schedule part at model level: Confluent over all id orders
+    def evalable(cs):
+        for c in cs:
+            c.update({"fac": {"mode": "loc", "loc": "PENINSULA"}, "kexp": [0, 1], "area": [1, 1], "lm": False})
+            yield c
+    ctx.replay(repeat(evalable(stride(vlib.mc_cases(c06), 12 if ctx.quick else 2, ctx.seed % 12 if ctx.quick else 0))), "repeat-aux", "Trace_C10",
+               keep=lambda c: {"src": c["srcs"][0]})
+    ctx.extra.update(order_stats(ctx))
+    ctx.nontrivial = set(range(ctx.ncases))
+    ctx.samples = [{"group": 1, "base_file_lines": groups[0]["srcs"][0], "one_rewriting": groups[0]["srcs"][1]}]
+    ctx.assumptions = [TOL_NOTE, TRUST, "the harness writer (harness/src/abs.rs render_file) maps the token-level file of TextFormat.tla to bytes; byte-level layouts outside its atoms are not generated",
+                       "the second-process clause is checked through the CLI in the C17/C19 checks (cteepbd --json on the same file twice)"]
+    return ctx.finish("every file TLC reaches from 4 base files by rewriting sequences of depth <= 2 (quick) / 3 (thorough) (swap, split, renumber ids, comment, blank, remark, header, BOM, padding, id 0 explicit/omitted) is written, parsed and evaluated by the real code and compared with its base; each building of a second set (lattice, shipped files, random with auxiliaries, MC_Comp aux family) is parsed and evaluated 12 (48) times, the hash orders taken being recorded by the hooks")
+
+
 PROPS = {
     "C01": p_C01,
     "C02": p_C02,
@@ -609,6 +662,7 @@ PROPS = {
     "C07": p_C07,
     "C08": p_C08,
     "C09": p_C09,
+    "C10": p_C10,
     "C11": p_C11,
     "C12": p_C12,
     "C13": p_C13,
